@@ -74,6 +74,18 @@ def dtlz(args):
             ctx.check('objective-vector-has-norm-(1+g)', ops.differs(lhs, rhs, TOL), witness=ops.far(lhs, rhs, 1e-3))
         for i, v in enumerate(f):
             ctx.check('objective-%d-nonnegative' % i, v < -TOL)
+        if args.get('twice'):
+            # multi-step: the same problem object evaluates a second, different point
+            y = [ctx.real('y%d' % i, 0.0, 1.0) for i in range(n)]
+            f2 = prob.evaluate(Individual(y))
+            tail2 = y[n - k:]
+            if fam in (1, 3):
+                g2 = 100 * (k + ops.Sum([(t - 0.5) * (t - 0.5) - ops.scos(20.0 * math.pi * (t - 0.5)) for t in tail2]))
+                l2, r2 = (ops.Sum(f2), 0.5 * (1 + g2)) if fam == 1 else (ops.Sum([v * v for v in f2]), (1 + g2) * (1 + g2))
+            else:
+                g2 = ops.Sum([(t - 0.5) * (t - 0.5) for t in tail2])
+                l2, r2 = ops.Sum([v * v for v in f2]), (1 + g2) * (1 + g2)
+            ctx.check('identity-holds-on-a-second-call', ops.differs(l2, r2, TOL), witness=ops.far(l2, r2, 1e-3))
     return body
 
 
@@ -147,6 +159,9 @@ def configs(tier):
         for m in range(2, M + 1):
             out.append({'name': 'dtlz%d-m%d' % (fam, m), 'task': 'dtlz', 'args': {'family': fam, 'm': m},
                         'weight': m * 10, 'engine': {'validate': 5, 'first_timeout_s': 0.5}})
+    for fam in (1, 2, 3, 4):
+        out.append({'name': 'dtlz%d-m2-two-calls' % fam, 'task': 'dtlz', 'args': {'family': fam, 'm': 2, 'k': 2 if fam == 1 else 10, 'twice': True},
+                    'weight': 30, 'engine': {'validate': 5, 'first_timeout_s': 0.5}})
     for m in (2, 3):
         out.append({'name': 'dtlz4-m%d-positions-near-one' % m, 'task': 'dtlz', 'args': {'family': 4, 'm': m, 'near_one': True},
                     'weight': m * 10, 'engine': {'validate': 5, 'first_timeout_s': 0.5}})
